@@ -1445,32 +1445,113 @@ func (h *H) seriesOf(id uint64) ([]string, error) {
 }
 
 // RetentionDelete: what retention enforcement does to a data node's store when shard 1 has
-// expired while the database's other shard (the mirror, which holds every series and is not
-// expired) is, in mode "disabled", switched off as the snapshotter does during an online
-// restore. The expired shard is deleted (or the deletion is refused and must succeed once the
-// other shard is back); whatever the order, the live shard keeps every series and every
-// point, now and after a restart. Needs a mirror configuration.
-func (h *H) RetentionDelete(mode string) string {
+// expired while the database's other shard (the mirror, not expired) is, in mode "disabled",
+// switched off as the snapshotter does during an online restore. `shared` are series both
+// shards hold, `only1` series only the expired shard holds. The expired shard is deleted (or
+// the deletion is refused — nothing may change then — and must succeed once the other shard is
+// back); whatever the order, the live shard keeps every series and every point, now and
+// after a restart, and exactly the series only the expired shard held leave the series file.
+// Needs a mirror configuration. Answers "kept <n> removed <m> first=<done|abandoned>".
+func (h *H) RetentionDelete(mode, shared, only1 string) string {
 	if !h.Mirror {
 		return "bad-op"
 	}
+	bad := func(err error) string { return "err:" + strings.ReplaceAll(err.Error(), " ", "_") }
+	line := func(list string) (string, int) {
+		var pts []string
+		n := 0
+		if list != "-" {
+			for _, sr := range strings.Split(list, ";") {
+				pts = append(pts, sr+"|1600000000000001000|v=f3ff0000000000000")
+				n++
+			}
+		}
+		return strings.Join(pts, ";"), n
+	}
+	sl, ns := line(shared)
+	ol, no := line(only1)
+	if ns > 0 {
+		if w := h.Write(sl); w != "ok" {
+			return "err:write:" + w
+		}
+	}
+	var onlyPts []models.Point
+	if no > 0 {
+		var err error
+		if onlyPts, err = ParsePoints(ol); err != nil {
+			return "bad-op"
+		}
+		if err := h.Store.WriteToShard(ShardID, onlyPts); err != nil {
+			return bad(err)
+		}
+	}
 	before, err := h.seriesOf(MirrorShardID)
 	if err != nil {
-		return "err:" + strings.ReplaceAll(err.Error(), " ", "_")
+		return bad(err)
+	}
+	{
+		// the in-memory index is one per database: it lists the expired shard's own series
+		// too until they are dropped with it. What must be left is what the mirror holds.
+		gone := map[string]bool{}
+		for _, p := range onlyPts {
+			gone[canonSeries(p.Key())] = true
+		}
+		var want []string
+		for _, b := range before {
+			if !gone[b] {
+				want = append(want, b)
+			}
+		}
+		before = want
+	}
+	if len(before) != ns {
+		return fmt.Sprintf("err:mirror_holds_%d_series_want_%d", len(before), ns)
+	}
+	inFile := func() (present int, err error) {
+		sh := h.Store.Shard(MirrorShardID)
+		sf, err := sh.SeriesFile()
+		if err != nil {
+			return 0, err
+		}
+		all, _ := ParsePoints(strings.Join([]string{sl, ol}, ";"))
+		if ns == 0 || no == 0 {
+			all, _ = ParsePoints(sl + ol)
+		}
+		seen := map[string]bool{}
+		for _, p := range all {
+			if seen[string(p.Key())] {
+				continue
+			}
+			seen[string(p.Key())] = true
+			if sf.HasSeries(p.Name(), p.Tags(), nil) {
+				present++
+			}
+		}
+		return present, nil
+	}
+	had, err := inFile()
+	if err != nil {
+		return bad(err)
 	}
 	if mode == "disabled" {
 		if err := h.Store.SetShardEnabled(MirrorShardID, false); err != nil {
-			return "err:" + strings.ReplaceAll(err.Error(), " ", "_")
+			return bad(err)
 		}
 	}
 	first := h.Store.DeleteShard(ShardID)
 	if mode == "disabled" {
 		if err := h.Store.SetShardEnabled(MirrorShardID, true); err != nil {
-			return "err:" + strings.ReplaceAll(err.Error(), " ", "_")
+			return bad(err)
 		}
 	}
+	firstWord := "done"
 	if first != nil {
-		// refused: retention tries again at its next check, which must succeed now
+		firstWord = "abandoned"
+		// refused: nothing may have changed, and retention tries again at its next check,
+		// which must succeed now
+		if now, err := inFile(); err != nil || now != had {
+			return fmt.Sprintf("RETENTION-ABANDONED-CHANGED the refused deletion left %d of %d series in the series file (%v)", now, had, err)
+		}
 		if err := h.Store.DeleteShard(ShardID); err != nil {
 			return "RETENTION-STUCK the expired shard cannot be deleted: " + strings.ReplaceAll(err.Error(), " ", "_")
 		}
@@ -1481,7 +1562,7 @@ func (h *H) RetentionDelete(mode string) string {
 	check := func(when string) string {
 		after, err := h.seriesOf(MirrorShardID)
 		if err != nil {
-			return "err:" + strings.ReplaceAll(err.Error(), " ", "_")
+			return bad(err)
 		}
 		if strings.Join(after, ",") != strings.Join(before, ",") {
 			return fmt.Sprintf("RETENTION-LOST-SERIES %s: the unexpired shard listed %d series, now %d", when, len(before), len(after))
@@ -1499,11 +1580,15 @@ func (h *H) RetentionDelete(mode string) string {
 	if why := check("after the deletion"); why != "" {
 		return why
 	}
+	left, err := inFile()
+	if err != nil {
+		return bad(err)
+	}
 	if err := h.Reopen(); err != nil {
 		return "err:reopen:" + strings.ReplaceAll(err.Error(), " ", "_")
 	}
 	if why := check("after a restart"); why != "" {
 		return why
 	}
-	return "kept " + fmt.Sprint(len(before))
+	return fmt.Sprintf("kept %d removed %d first=%s", len(before), had-left, firstWord)
 }
